@@ -160,7 +160,7 @@ def scenario(ctx):
     rules = []       # dicts: spec, rdict, state ('adding','active','deleting','gone'), hits, raises
     frames = []      # daemon->client frames in stream order: (end, kind, payload)
     invoked = []     # (rule index, signal serial, args)
-    budget = [3 + ds.choose(20)]
+    budget = [3 + ds.choose(20 * (3 if ctx.tier == 'thorough' else 1))]
     nseen = [len(rig.sent)]
     pending_calls = {}   # serial of AddMatch/RemoveMatch call -> (rule idx, 'add'|'del', text)
 
@@ -439,8 +439,8 @@ def scenario(ctx):
     cl.signalReceived = traced_signal_received
 
     op_add()
-    sched.run(500, extra, invariant)
+    sched.run(500 * (3 if ctx.tier == 'thorough' else 1), extra, invariant)
     budget[0] = 0
-    ok = sched.drain(500, extra, invariant)
+    ok = sched.drain(500 * (3 if ctx.tier == 'thorough' else 1), extra, invariant)
     if not ok:
         raise Violation('C12/liveness', 'no quiescence', 'drain did not reach quiescence')
